@@ -733,10 +733,26 @@ func (c *ctx) stmts(list []ast.Stmt) {
 			fail(c.p, s, "unsupported declaration")
 		case *ast.AssignStmt:
 			c.assign(x)
-		case *ast.RangeStmt:
-			c.rangeStmt(x)
-		case *ast.ForStmt:
-			c.forStmt(x)
+		case *ast.RangeStmt, *ast.ForStmt:
+			// the notes-option loop in any of its forms
+			done := false
+			for name, pi := range c.params {
+				if c.pkinds[pi] != "nopts" {
+					continue
+				}
+				if l, ok := optionLoop(c.p, s, name, "applyNotes"); ok && c.env[l].kind == "list" {
+					c.env[l] = sym{kind: "list", text: fmt.Sprintf("(LNotesOpts %s %d)", c.env[l].text, pi)}
+					done = true
+				}
+			}
+			if done {
+				continue
+			}
+			if rs, ok := s.(*ast.RangeStmt); ok {
+				c.rangeStmt(rs)
+			} else {
+				c.forStmt(s.(*ast.ForStmt))
+			}
 		case *ast.IfStmt:
 			c.ifStmt(x)
 		case *ast.ReturnStmt:
@@ -1395,54 +1411,148 @@ func rangeGuard(c *ctx, e ast.Expr) (lo, hi string, ok bool) {
 
 // ---------- featureOptions ----------
 
+// optionLoop recognises the loop that lets every option append its parameter:
+//   for _, o := range opts { L, err = o.<method>(L); if err != nil { return ..., err } }
+// also with an index (for i := range opts / for i := 0; i < len(opts); i++, receiver opts[i]) and
+// with the assignment folded into the if statement.  Returns the list variable L.
+func optionLoop(p *tr.Pkg, s ast.Stmt, optsName, method string) (string, bool) {
+	var body []ast.Stmt
+	isRecv := func(e ast.Expr) bool { return false }
+	switch x := s.(type) {
+	case *ast.RangeStmt:
+		if render(p, x.X) != optsName {
+			return "", false
+		}
+		body = x.Body.List
+		if v, ok := x.Value.(*ast.Ident); ok && v.Name != "_" {
+			isRecv = func(e ast.Expr) bool { return render(p, e) == v.Name }
+		} else if k, ok := x.Key.(*ast.Ident); ok && k.Name != "_" {
+			isRecv = func(e ast.Expr) bool { return render(p, e) == optsName+"["+k.Name+"]" }
+		}
+	case *ast.ForStmt:
+		init, ok := x.Init.(*ast.AssignStmt)
+		if !ok || len(init.Lhs) != 1 || render(p, init.Rhs[0]) != "0" {
+			return "", false
+		}
+		i := render(p, init.Lhs[0])
+		if render(p, x.Cond) != i+" < len("+optsName+")" || render(p, x.Post) != i+"++" {
+			return "", false
+		}
+		body = x.Body.List
+		isRecv = func(e ast.Expr) bool { return render(p, e) == optsName+"["+i+"]" }
+	default:
+		return "", false
+	}
+	// the assignment, either a statement of its own or the init of the error test
+	var as *ast.AssignStmt
+	switch len(body) {
+	case 1:
+		is, ok := body[0].(*ast.IfStmt)
+		if !ok || is.Init == nil {
+			return "", false
+		}
+		y := *is
+		y.Init = nil
+		if !isErrReturn(&y) {
+			return "", false
+		}
+		as, _ = is.Init.(*ast.AssignStmt)
+	case 2:
+		if !isErrReturn(body[1]) {
+			return "", false
+		}
+		as, _ = body[0].(*ast.AssignStmt)
+	}
+	if as == nil || len(as.Lhs) != 2 || len(as.Rhs) != 1 || render(p, as.Lhs[1]) != "err" {
+		return "", false
+	}
+	ce, ok := as.Rhs[0].(*ast.CallExpr)
+	if !ok || len(ce.Args) != 1 {
+		return "", false
+	}
+	se, ok := ce.Fun.(*ast.SelectorExpr)
+	if !ok || se.Sel.Name != method || !isRecv(se.X) {
+		return "", false
+	}
+	l := render(p, as.Lhs[0])
+	if render(p, ce.Args[0]) != l {
+		return "", false
+	}
+	return l, true
+}
+
 func translateFeatureOptions(p *tr.Pkg, decls map[string]*ast.FuncDecl) string {
 	fd := decls["featureOptions"]
-	if fd == nil {
-		fail(p, nil, "featureOptions not found")
+	if fd == nil || len(fd.Type.Params.List) != 1 || len(fd.Type.Params.List[0].Names) != 1 {
+		fail(p, nil, "featureOptions not found / not one parameter")
 	}
-	// shape: [if len(opts)==0 {return "", nil}] params := make(..); var err error;
-	//        for _, o := range opts { params, err = o.applyFeature(params); if err != nil { return "", err } }
-	//        return strings.Join(params, SEP), nil
-	sep := ""
-	found := false
-	loop := false
-	for _, s := range fd.Body.List {
+	opts := fd.Type.Params.List[0].Names[0].Name
+	// [if len(opts) == 0 { return "", nil }]  L := make([]string, 0, n) / var block;  var err error;
+	// the option loop over applyFeature;  return strings.Join(L, SEP), nil
+	sep, list := "", ""
+	found, loop := false, false
+	isListInit := func(name string, v ast.Expr) bool {
+		ce, ok := isFunc(v, "make")
+		if !ok || len(ce.Args) < 2 || render(p, ce.Args[0]) != "[]string" || render(p, ce.Args[1]) != "0" {
+			return false
+		}
+		for _, a := range ce.Args[1:] {
+			ast.Inspect(a, func(n ast.Node) bool {
+				if c2, ok := n.(*ast.CallExpr); ok && render(p, c2) != "len("+opts+")" {
+					fail(p, c2, "featureOptions: call in the capacity of the parameter list")
+				}
+				return true
+			})
+		}
+		list = name
+		return true
+	}
+	for _, s := range flatten(fd.Body.List) {
 		switch x := s.(type) {
 		case *ast.IfStmt:
-			be, ok := x.Cond.(*ast.BinaryExpr)
-			if !ok || be.Op != token.EQL || len(x.Body.List) != 1 {
+			c := strings.Join(strings.Fields(render(p, x.Cond)), " ")
+			if (c != "len("+opts+") == 0" && c != opts+" == nil" && c != "0 == len("+opts+")") || x.Init != nil || x.Else != nil || len(x.Body.List) != 1 {
 				fail(p, x, "featureOptions: unsupported if")
 			}
-			rs, ok := x.Body.List[0].(*ast.ReturnStmt)
-			if !ok || len(rs.Results) != 2 {
-				fail(p, x, "featureOptions: unsupported early return")
+			if strings.Join(strings.Fields(render(p, x.Body.List[0])), " ") != `return "", nil` {
+				fail(p, x, "featureOptions: the empty case does not return \"\", nil")
 			}
-			tv := p.Info.Types[rs.Results[0]]
-			if tv.Value == nil || constant.StringVal(tv.Value) != "" {
-				fail(p, x, "featureOptions: early return of a non-empty string")
+		case *ast.AssignStmt:
+			if len(x.Lhs) != 1 || len(x.Rhs) != 1 || !isListInit(render(p, x.Lhs[0]), x.Rhs[0]) {
+				fail(p, x, "featureOptions: unsupported assignment %s", render(p, x))
 			}
-		case *ast.AssignStmt, *ast.DeclStmt:
-		case *ast.RangeStmt:
-			if len(x.Body.List) != 2 {
-				fail(p, x, "featureOptions: loop shape")
+		case *ast.DeclStmt:
+			gd, ok := x.Decl.(*ast.GenDecl)
+			if !ok || gd.Tok != token.VAR {
+				fail(p, x, "featureOptions: unsupported declaration")
 			}
-			as, ok := x.Body.List[0].(*ast.AssignStmt)
-			if !ok || len(as.Rhs) != 1 {
-				fail(p, x, "featureOptions: loop shape")
+			for _, sp := range gd.Specs {
+				vs := sp.(*ast.ValueSpec)
+				if len(vs.Names) != 1 {
+					fail(p, x, "featureOptions: unsupported declaration")
+				}
+				switch {
+				case len(vs.Values) == 0 && vs.Names[0].Name == "err":
+				case len(vs.Values) == 0 && render(p, vs.Type) == "[]string":
+					list = vs.Names[0].Name
+				case len(vs.Values) == 1 && isListInit(vs.Names[0].Name, vs.Values[0]):
+				default:
+					fail(p, x, "featureOptions: unsupported declaration")
+				}
 			}
-			ce, ok := as.Rhs[0].(*ast.CallExpr)
-			if !ok {
-				fail(p, x, "featureOptions: loop shape")
-			}
-			se, ok := ce.Fun.(*ast.SelectorExpr)
-			if !ok || se.Sel.Name != "applyFeature" {
-				fail(p, x, "featureOptions: loop does not call applyFeature")
+		case *ast.RangeStmt, *ast.ForStmt:
+			l, ok := optionLoop(p, s, opts, "applyFeature")
+			if !ok || l != list || loop {
+				fail(p, s, "featureOptions: the loop is not the option loop over applyFeature")
 			}
 			loop = true
 		case *ast.ReturnStmt:
+			if len(x.Results) != 2 || render(p, x.Results[1]) != "nil" {
+				fail(p, x, "featureOptions: final return")
+			}
 			ce, ok := isCall(x.Results[0], "strings", "Join")
-			if !ok {
-				fail(p, x, "featureOptions: final return is not strings.Join")
+			if !ok || render(p, ce.Args[0]) != list || !loop {
+				fail(p, x, "featureOptions: final return is not strings.Join of the parameter list")
 			}
 			tv := p.Info.Types[ce.Args[1]]
 			if tv.Value == nil {
@@ -1459,8 +1569,6 @@ func translateFeatureOptions(p *tr.Pkg, decls map[string]*ast.FuncDecl) string {
 	}
 	return sep
 }
-
-// ---------- getFromAPI ----------
 
 type apiStep struct {
 	kind string // SWait | SNewRequest | SDo | SClose | SStatus | SDecode
@@ -1766,6 +1874,9 @@ func translateGetFromAPI(p *tr.Pkg, decls map[string]*ast.FuncDecl) apiInfo {
 			rhs := x.Rhs[0]
 			switch {
 			case isAliasInit(x):
+			case len(x.Lhs) == 1 && render(p, x.Lhs[0]) == "client" && isClientChooser(p, decls, rhs):
+				// client := ds.httpClient(): a helper that only chooses among clients
+				claim(rhs)
 			case !hasCall(x):
 				// choice of the client: client := ds.Client, client = DefaultDatasource.Client, ...
 				if len(x.Lhs) != 1 || render(p, x.Lhs[0]) != "client" {
@@ -1853,6 +1964,72 @@ func translateGetFromAPI(p *tr.Pkg, decls map[string]*ast.FuncDecl) apiInfo {
 		fail(p, fd, "getFromAPI: no Limiter.Wait call")
 	}
 	return a
+}
+
+// isClientChooser: a call ds.<unexported>() of a method that does nothing but choose a client:
+// its body consists of returns of call-free expressions, guarded by nil tests (with an optional
+// call-free init), and it returns *http.Client
+func isClientChooser(p *tr.Pkg, decls map[string]*ast.FuncDecl, e ast.Expr) bool {
+	ce, ok := e.(*ast.CallExpr)
+	if !ok || len(ce.Args) != 0 {
+		return false
+	}
+	se, ok := ce.Fun.(*ast.SelectorExpr)
+	if !ok || render(p, se.X) != "ds" || ast.IsExported(se.Sel.Name) {
+		return false
+	}
+	fd := decls["Datasource."+se.Sel.Name]
+	if fd == nil || fd.Type.Results == nil || len(fd.Type.Results.List) != 1 || render(p, fd.Type.Results.List[0].Type) != "*http.Client" {
+		return false
+	}
+	callFree := func(n ast.Node) bool {
+		free := true
+		ast.Inspect(n, func(m ast.Node) bool {
+			if _, ok := m.(*ast.CallExpr); ok {
+				free = false
+			}
+			return true
+		})
+		return free
+	}
+	var okStmts func(l []ast.Stmt) bool
+	okStmts = func(l []ast.Stmt) bool {
+		for _, s := range l {
+			switch x := s.(type) {
+			case *ast.ReturnStmt:
+				if len(x.Results) != 1 || !callFree(x) {
+					return false
+				}
+			case *ast.IfStmt:
+				be, isBin := x.Cond.(*ast.BinaryExpr)
+				if !isBin || (be.Op != token.EQL && be.Op != token.NEQ) || !callFree(x.Cond) || (x.Init != nil && !callFree(x.Init)) {
+					return false
+				}
+				if !okStmts(x.Body.List) {
+					return false
+				}
+				switch el := x.Else.(type) {
+				case nil:
+				case *ast.BlockStmt:
+					if !okStmts(el.List) {
+						return false
+					}
+				case *ast.IfStmt:
+					if !okStmts([]ast.Stmt{el}) {
+						return false
+					}
+				}
+			case *ast.AssignStmt:
+				if !callFree(x) {
+					return false
+				}
+			default:
+				return false
+			}
+		}
+		return true
+	}
+	return okStmts(fd.Body.List) && terminates(fd.Body.List)
 }
 
 func translateNotFound(p *tr.Pkg, decls map[string]*ast.FuncDecl) string {
